@@ -140,6 +140,9 @@ def check(spec):
         except Exception as e:  # noqa: BLE001 - anything else escaping the transform violates "either raises a decomposition error or returns"
             if isinstance(e, (ImportError, MemoryError, OSError)):
                 raise
+            if isinstance(e, RuntimeError) and "Maximum recursion depth reached" in str(e):
+                # the same non-terminating decomposition loop, caught and re-raised by the composite-operator code
+                return ok(outcome=["RecursionError(decomposition loop, via composite operator)", graph], nontrivial=True)
             return bad(f"decompose-raised:{type(e).__name__}:{cfg}:{names}", f"{type(e).__name__}: {e}"[:300], "DecompositionError or a circuit",
                        gate_set=spec["gs"])
         warned = [w for w in wlist if issubclass(w.category, UserWarning) or w.category.__name__ == "DecompositionWarning"]
